@@ -7,6 +7,9 @@ from pfv import terms as tm
 from pfv import smt, fc
 from pfv.framework import Obligation, Verdict, real_exec
 from pfv.proxies import explore, SReal, SInt, Unsupported, ctx, lift
+import functools as _ft
+_explore_raw = explore
+explore = _ft.partial(_explore_raw, enforce_bounds=True)     # shim range assumptions (slices / indices) must be provable on every returning path
 
 NP, HOR, DT = tm.var('n_paths', 'I'), tm.var('horizon'), tm.var('dt')
 BASE = [tm.ge(NP, tm.IONE), tm.ge(HOR, tm.ZERO), tm.gt(DT, tm.ZERO)]
